@@ -286,7 +286,7 @@ def build_project(spec, name="generated"):
                 imp = None
                 if spec.get("explicit_interaction") and len(progs_here) >= 2:
                     two = list(progs_here.keys())[:2]
-                    imp = f"{two[0]}+{two[1]}={max(progs_here[two[0]], progs_here[two[1]]) * 1.1:.6g}"  # explicit outcome when both programs reach a person
+                    imp = f"{two[0]}+{two[1]}={max(progs_here[two[0]], progs_here[two[1]]) * 1.0987654321:.12g}"  # explicit outcome when both programs reach a person
                 pset.covouts[(par, pop)] = at.programs.Covout(par=par, pop=pop, progs=progs_here, cov_interaction=spec["cov_interaction"], imp_interaction=imp, baseline=base * 0.5, uncertainty=(0.01 * base if spec["uncertainty"] else None))
         # round trip through the program book so that the set is exactly what the loader produces
         pset = at.ProgramSet.from_spreadsheet(pset.to_spreadsheet(), framework=fw, data=data, name="default")
